@@ -1,9 +1,12 @@
 //! Engine `xcdr`: properties C09, C10, C11, C12, C39 (XCDR codecs, key hash, type evolution).
 
 mod c09;
+mod c10;
+mod c39;
 mod features;
 mod golden;
 mod harness;
+mod keys;
 mod lower;
 mod rxcdr;
 mod types;
@@ -58,6 +61,9 @@ fn main() {
     harness::set_case_cpu_millis(ctx.pick(60, 400));
     match ctx.id.as_str() {
         "C09" => c09::main(&ctx),
+        "C10" => c10::main(&ctx),
+        "C11" | "C12" => keys::main(&ctx),
+        "C39" => c39::main(&ctx),
         "probe" => {
             // development aid: xcdr probe quick <file.json>  (a C09 case: {"ty":..,"vals":[..]})
             let path = ctx.extra.first().expect("file");
@@ -66,6 +72,15 @@ fn main() {
             let v = v.get("case").cloned().unwrap_or(v);
             let case: c09::Case = serde_json::from_value(v).unwrap();
             c09::probe(&case);
+            std::process::exit(0)
+        }
+        "keyprobe" => {
+            let path = ctx.extra.first().expect("file");
+            let txt = std::fs::read_to_string(path).unwrap();
+            let v: serde_json::Value = serde_json::from_str(&txt).unwrap();
+            let v = v.get("case").cloned().unwrap_or(v);
+            let case: keys::Case = serde_json::from_value(v).unwrap();
+            keys::probe(&case);
             std::process::exit(0)
         }
         "selftest" => match golden::self_test() {
